@@ -172,6 +172,20 @@ def check(recipe) -> list[Fail]:
                 model.weights = np.append(model.weights, 0.0)
                 model.known_w = np.append(model.known_w, False)
                 name = f"append[{op[1]}]"
+            elif name == "append_own":
+                # one of the ensemble's OWN conformers is appended (duplicate the last frame, then edit it): the handle is taken by a
+                # positive or a negative index; the new row is a copy of that row as it was
+                if nc == 0:
+                    continue
+                i = op[1] % nc
+                neg = bool(op[2] % 2)
+                ens.append(ens[i - nc if neg else i])
+                model.coords = np.concatenate([model.coords.reshape((nc, na, 3)), model.coords.reshape((nc, na, 3))[i][None]], axis=0)
+                model.charges = np.concatenate([model.charges.reshape((nc, na)), model.charges.reshape((nc, na))[i][None]], axis=0)
+                model.known_q = np.append(model.known_q, model.known_q[i])
+                model.weights = np.append(model.weights, 0.0)
+                model.known_w = np.append(model.known_w, False)
+                name = f"append_own[{'negative' if neg else 'positive'}-index]"
             elif name == "extend":
                 m = 1 + op[2] % 3
                 geoms = [build_geom(_frame(base, next(extra), na), "Molecule") for _ in range(m)]
@@ -232,6 +246,24 @@ def check(recipe) -> list[Fail]:
                 Rs = np.array([_proper_R(op[1] + 7 * c) for c in range(nc)])
                 ens.rotate(Rs)
                 model.coords = np.array([model.coords[c] @ Rs[c] for c in range(nc)]).reshape((nc, na, 3))
+            elif name == "rotate_bad_stack":
+                # a stack of matrices of the WRONG length (one too many / two too many): refused, or at any rate the three arrays still
+                # describe the same conformers afterwards
+                if nc == 0:
+                    continue
+                from vf.props.c11 import _proper_R
+
+                Rs = np.array([_proper_R(op[1] + 3 * c) for c in range(nc + 1 + op[1] % 2)])
+                try:
+                    ens.rotate(Rs)
+                    accepted = True
+                except Exception:
+                    accepted = False
+                if accepted:
+                    if np.shape(ens.coords) != (nc, na, 3) or np.shape(ens.atomic_charges) != (nc, na) or np.shape(ens.weights) != (nc,):
+                        return [Fail("rotation-stack-of-wrong-length-breaks-the-rectangle", f"step {step}: {len(Rs)} matrices for {nc} conformer(s); coords now {np.shape(ens.coords)}, charges {np.shape(ens.atomic_charges)}, weights {np.shape(ens.weights)}")]
+                    model.coords = np.array(ens.coords, dtype=float)     # (what an accepting implementation makes of it is its own business)
+                name = "rotate_bad_stack(rejected)" if not accepted else "rotate_bad_stack(accepted)"
             elif name in ("write_coord", "write_coords_setter", "write_charge", "write_atom_field"):
                 if nc == 0 or na == 0:
                     continue
@@ -480,6 +512,8 @@ def strat(tier):
         st.tuples(st.just("slice"), i, i, st.integers(0, 5)).map(list),
         st.tuples(st.just("orphan"), i).map(list),
         st.tuples(st.just("oob_write"), i, i).map(list),
+        st.tuples(st.just("append_own"), i, i).map(list),
+        st.tuples(st.just("rotate_bad_stack"), i).map(list),
         st.tuples(st.just("dump"), st.sampled_from(["xyz", "mol2"])).map(list),
         st.tuples(st.just("serialise"), st.sampled_from(["codec", "pickle", "library"]), st.booleans()).map(list),
     )
